@@ -116,6 +116,8 @@ func (c *Config) GetKpasswdServers(realm string, tcp bool) (int, map[int]string,
 }
 
 func randServOrder(ks []string) map[int]string {
+	// Work on a copy: the entries are swapped and truncated below and ks is the slice held by the Config.
+	ks = append([]string(nil), ks...)
 	kdcs := make(map[int]string)
 	count := len(ks)
 	i := 1
